@@ -16,11 +16,15 @@ R(n, d) == LET s == IF d < 0 THEN -1 ELSE 1
 RInt(n) == <<n, 1>>
 RZero == <<0, 1>>
 ROne == <<1, 1>>
-RAdd(a, b) == R(a[1] * b[2] + b[1] * a[2], a[2] * b[2])
+\* (cross-cancelling keeps intermediate products small: TLC integers are 32-bit)
+RAdd(a, b) == LET g == Gcd(a[2], b[2]) IN R(a[1] * (b[2] \div g) + b[1] * (a[2] \div g), (a[2] \div g) * b[2])
 RNeg(a) == <<-a[1], a[2]>>
 RSub(a, b) == RAdd(a, RNeg(b))
-RMul(a, b) == R(a[1] * b[1], a[2] * b[2])
-RDiv(a, b) == R(a[1] * b[2], a[2] * b[1])
+RMul(a, b) == LET g1 == Gcd(Abs(a[1]), b[2])  g2 == Gcd(Abs(b[1]), a[2])
+                  n1 == IF g1 = 0 THEN 0 ELSE a[1] \div g1   d2 == IF g1 = 0 THEN b[2] ELSE b[2] \div g1
+                  n2 == IF g2 = 0 THEN 0 ELSE b[1] \div g2   d1 == IF g2 = 0 THEN a[2] ELSE a[2] \div g2
+              IN  R(n1 * n2, d1 * d2)
+RDiv(a, b) == RMul(a, IF b[1] < 0 THEN <<-b[2], -b[1]>> ELSE <<b[2], b[1]>>)
 RLe(a, b) == a[1] * b[2] <= b[1] * a[2]
 RLt(a, b) == a[1] * b[2] < b[1] * a[2]
 RIsZero(a) == a[1] = 0
